@@ -11,6 +11,7 @@ import (
 
 	"github.com/bluenviron/gortsplib/v5/pkg/description"
 	"github.com/bluenviron/gortsplib/v5/pkg/format"
+	"github.com/pion/rtp"
 
 	"github.com/bluenviron/mediamtx/internal/conf"
 	"github.com/bluenviron/mediamtx/internal/logger"
@@ -30,6 +31,9 @@ type verifC22Log struct{}
 func (verifC22Log) Log(logger.Level, string, ...any) {}
 
 type verifC22State struct {
+	mode     string
+	attached bool
+	seq      uint16
 	codec  string
 	stream bool
 	forma  format.Format // direct mode: the output format object
@@ -63,7 +67,9 @@ func verifC22FmtParam(b []byte) string {
 func verifC22Close() {
 	st := verifC22
 	if st != nil && st.strm != nil {
-		st.strm.RemoveReader(st.rd)
+		if st.attached {
+			st.strm.RemoveReader(st.rd)
+		}
 		st.strm.Close()
 	}
 	verifC22 = nil
@@ -71,7 +77,10 @@ func verifC22Close() {
 
 func verifC22Reset(f []string) string {
 	verifC22Close()
-	st := &verifC22State{codec: f[1], stream: f[2] == "stream"}
+	// modes: direct (updater + remuxer functions), stream (payload-only units of an RTP publisher: no RTP encoder),
+	// rtp (RTP publisher delivering real packets within the maximum: decoded, no encoder), pay (non-RTP publisher:
+	// RTP encoder present)
+	st := &verifC22State{codec: f[1], mode: f[2], stream: f[2] != "direct", attached: true}
 	ps := f[3:]
 	switch st.codec {
 	case "h264":
@@ -94,21 +103,57 @@ func verifC22Reset(f []string) string {
 		}
 		// UseRTPPackets with units that carry only a payload: no RTP encoder is created, the unit
 		// goes through formatUpdater + unitRemuxer only.
-		st.sub = &SubStream{Stream: st.strm, UseRTPPackets: true}
+		st.sub = &SubStream{Stream: st.strm, UseRTPPackets: st.mode != "pay"}
 		if err := st.sub.Initialize(); err != nil {
 			return "err-subinit"
 		}
-		st.recv = make(chan *unit.Unit, 4)
-		st.rd = &Reader{Parent: verifC22Log{}}
-		recv := st.recv
-		st.rd.OnData(st.media, st.forma, func(u *unit.Unit) error {
-			recv <- u
-			return nil
-		})
-		st.strm.AddReader(st.rd)
+		st.attach()
 	}
 	verifC22 = st
 	return "ok"
+}
+
+func (st *verifC22State) attach() {
+	st.recv = make(chan *unit.Unit, 4)
+	st.rd = &Reader{Parent: verifC22Log{}}
+	recv := st.recv
+	st.rd.OnData(st.media, st.forma, func(u *unit.Unit) error {
+		recv <- u
+		return nil
+	})
+	st.strm.AddReader(st.rd)
+	st.attached = true
+}
+
+// the unit an RTP publisher hands over: ONE packet carrying the whole access unit (single NAL unit packet, or
+// STAP-A / AP aggregation; MPEG-4 Video: the frame with the marker), always far below the maximum payload size
+func (st *verifC22State) rtpUnit(args []string) *unit.Unit {
+	var pay []byte
+	nal := make([][]byte, len(args))
+	for i, a := range args {
+		nal[i] = verifutil.UnHex(a)
+	}
+	switch {
+	case st.codec == "m4v" || len(nal) == 1:
+		pay = nal[0]
+	case st.codec == "h264":
+		pay = []byte{24}
+		for _, n := range nal {
+			pay = append(pay, byte(len(n)>>8), byte(len(n)))
+			pay = append(pay, n...)
+		}
+	default: // h265 aggregation packet
+		pay = []byte{48 << 1, 1}
+		for _, n := range nal {
+			pay = append(pay, byte(len(n)>>8), byte(len(n)))
+			pay = append(pay, n...)
+		}
+	}
+	st.seq++
+	return &unit.Unit{PTS: 90000, RTPPackets: []*rtp.Packet{{
+		Header:  rtp.Header{Version: 2, PayloadType: 96, SequenceNumber: st.seq, Timestamp: 90000, SSRC: 7, Marker: true},
+		Payload: pay,
+	}}}
 }
 
 func verifC22Payload(codec string, args []string) unit.Payload {
@@ -213,7 +258,19 @@ func verifC22Write(args []string) (res string) {
 		}
 		return "out=" + out + " p=" + verifC22FmtParams(st.forma)
 	}
-	st.sub.WriteUnit(st.media, st.forma, &unit.Unit{PTS: 90000, Payload: payload})
+	u := &unit.Unit{PTS: 90000, Payload: payload}
+	if st.mode == "rtp" {
+		u = st.rtpUnit(args)
+	}
+	errBefore := st.strm.InboundFramesInError()
+	st.sub.WriteUnit(st.media, st.forma, u)
+	if st.strm.InboundFramesInError() != errBefore {
+		return "err"
+	}
+	if !st.attached {
+		// nobody to deliver to; what the published description reports now
+		return "noreader p=" + verifC22FmtParams(st.strm.OutDescCopy().Medias[0].Formats[0])
+	}
 	select {
 	case u := <-st.recv:
 		out := "nil"
@@ -493,6 +550,27 @@ func verifC22Exec(op string) string {
 			return "bad-op"
 		}
 		return verifC22Write(f[1:])
+	case "detach", "attach", "desc":
+		st := verifC22
+		if st == nil || !st.stream {
+			return "bad-op"
+		}
+		switch f[0] {
+		case "detach":
+			if !st.attached {
+				return "bad-op"
+			}
+			st.strm.RemoveReader(st.rd)
+			st.attached = false
+			return "ok"
+		case "attach":
+			if st.attached {
+				return "bad-op"
+			}
+			st.attach()
+			return "ok"
+		}
+		return "p=" + verifC22FmtParams(st.strm.OutDescCopy().Medias[0].Formats[0])
 	}
 	return "bad-op"
 }
@@ -704,16 +782,29 @@ func verifC22Gen(r *verifutil.Rand, i int, thorough bool) []string {
 	}
 	codec := []string{"h264", "h264", "h265", "h265", "h265", "av1", "m4v", "m4v"}[r.Intn(8)]
 	mode := "direct"
-	if r.Chance(1, 4) {
+	switch x := r.Intn(20); {
+	case x < 3:
 		mode = "stream"
+	case x < 6 && codec != "av1":
+		mode = "rtp" // RTP publisher with real packets (decoded, no RTP encoder)
+	case x < 9 && codec != "av1":
+		mode = "pay" // non-RTP publisher (RTP encoder present)
 	}
-	hostile := r.Chance(1, 6)
+	packetised := mode == "rtp" || mode == "pay"
+	hostile := r.Chance(1, 6) && !packetised
+	initp := func(h byte) string {
+		p := verifC22InitParam(r, h)
+		if packetised && p == "-" {
+			p = "nil" // an empty parameter set cannot be packetised
+		}
+		return p
+	}
 	reset := "reset " + codec + " " + mode
 	switch codec {
 	case "h264":
-		reset += " " + verifC22InitParam(r, 0x67) + " " + verifC22InitParam(r, 0x68)
+		reset += " " + initp(0x67) + " " + initp(0x68)
 	case "h265":
-		reset += " " + verifC22InitParam(r, 0x40) + " " + verifC22InitParam(r, 0x42) + " " + verifC22InitParam(r, 0x44)
+		reset += " " + initp(0x40) + " " + initp(0x42) + " " + initp(0x44)
 	case "m4v":
 		if r.Chance(1, 3) {
 			reset += " -"
@@ -726,30 +817,79 @@ func verifC22Gen(r *verifutil.Rand, i int, thorough bool) []string {
 	if thorough {
 		n = 3 + r.Intn(40)
 	}
-	for j := 0; j < n; j++ {
-		if r.Chance(1, 25) {
-			ops = append(ops, "w nil")
-			continue
-		}
+	// one unit; `key` forces a key frame (IDR / GOV) so that parameter injection is exercised
+	unitOp := func(key bool) string {
 		if codec == "m4v" {
-			ops = append(ops, "w "+verifutil.Hex(verifC22Frame(r)))
-			continue
+			f := verifC22Frame(r)
+			if key {
+				f = append([]byte{0, 0, 1, 0xB3, byte(r.Intn(4))}, f...)
+			}
+			if packetised && len(f) == 0 {
+				f = []byte{7}
+			}
+			return "w " + verifutil.Hex(f)
 		}
 		k := r.Intn(7)
-		parts := make([]string, 0, k)
+		if packetised && k == 0 {
+			k = 1
+		}
+		parts := make([]string, 0, k+1)
 		for x := 0; x < k; x++ {
 			var nalu []byte
 			switch codec {
 			case "h264":
 				nalu = verifC22NALU264(r, hostile)
+				if packetised && len(nalu) > 0 && nalu[0]&0x1F >= 24 && nalu[0]&0x1F <= 29 {
+					nalu[0] = nalu[0]&0xE0 | 1 // 24..29 are RTP packet types, not NAL unit types
+				}
 			case "h265":
 				nalu = verifC22NALU265(r, hostile)
+				if packetised && len(nalu) > 0 && (nalu[0]>>1)&0x3F >= 48 && (nalu[0]>>1)&0x3F <= 50 {
+					nalu[0] = nalu[0]&0x81 | 1<<1
+				}
 			default:
 				nalu = verifC22OBU(r, hostile)
 			}
+			for packetised && len(nalu) < 3 {
+				nalu = append(nalu, byte(1+r.Intn(3)))
+			}
 			parts = append(parts, verifutil.Hex(nalu))
 		}
-		ops = append(ops, strings.TrimSpace("w "+strings.Join(parts, " ")))
+		if key {
+			switch codec {
+			case "h264":
+				parts = append(parts, verifutil.Hex([]byte{0x65, byte(1 + r.Intn(3)), 9}))
+			case "h265":
+				parts = append(parts, verifutil.Hex([]byte{byte(19+r.Intn(3)) << 1, 1, 9}))
+			}
+		}
+		return strings.TrimSpace("w " + strings.Join(parts, " "))
+	}
+	detached := false
+	for j := 0; j < n; j++ {
+		// reader-less phases: parameter sets change while nobody is attached, then the description is read / a
+		// reader attaches and gets a key frame
+		if mode != "direct" && r.Chance(1, 6) {
+			if !detached {
+				ops = append(ops, "detach")
+				detached = true
+			} else {
+				if r.Bool() {
+					ops = append(ops, "desc")
+				}
+				ops = append(ops, "attach", unitOp(true))
+				detached = false
+			}
+			continue
+		}
+		if r.Chance(1, 25) && !packetised {
+			ops = append(ops, "w nil")
+			continue
+		}
+		ops = append(ops, unitOp(false))
+	}
+	if detached {
+		ops = append(ops, "desc", "attach", unitOp(true))
 	}
 	return ops
 }
@@ -761,6 +901,12 @@ func verifC22Class(op, impl string) string {
 	if strings.HasPrefix(op, "reset") {
 		f := strings.Fields(op)
 		return "reset/" + f[1] + "/" + f[2]
+	}
+	if !strings.HasPrefix(op, "w") {
+		return strings.Fields(op)[0]
+	}
+	if strings.HasPrefix(impl, "noreader") {
+		return "w/noreader"
 	}
 	if verifC22 == nil {
 		return "w/none"
